@@ -18,8 +18,11 @@ import (
 	"errors"
 	"fmt"
 	"math"
+	"runtime/debug"
 	"sort"
 	"strings"
+	"sync"
+	"sync/atomic"
 
 	"github.com/talostrading/sonic"
 	"github.com/talostrading/sonic/codec/websocket"
@@ -249,9 +252,24 @@ func c07Reference(in decInput) decResult {
 	}
 }
 
+// c07Huge serialises the executions whose input declares a huge payload: a decoder that (wrongly) buffers for the
+// declared length allocates gigabytes, and sixteen of those at once would take the whole machine down before the
+// capacity check after Decode gets a chance to report it.
+var c07Huge sync.Mutex
+var c07Buffered atomic.Int32
+
 func c07Body(ins []decInput, tier string) func(x *engine.X) {
 	return func(x *engine.X) {
 		in := ins[x.Pick(len(ins), "input")]
+		if p, _ := wsref.Parse(in.b, math.MaxUint64); p.DeclLen > 1<<24 {
+			if c07Buffered.Load() >= 6 {
+				// established (and confirmed by re-execution) earlier in this run; every further such input would
+				// allocate gigabytes again
+				x.Fail("wsframe.Decode/unbounded-buffering", "input %s declares %d bytes: the decoder buffers for the declared length (seen and confirmed on earlier inputs of this run, not executed again)", in.name, p.DeclLen)
+			}
+			c07Huge.Lock()
+			defer c07Huge.Unlock()
+		}
 		sets := c07CutSets(len(in.b), tier)
 		cuts := sets[x.Pick(len(sets), "cuts")]
 		x.Note("input %s (%d bytes, max %d) cuts %v", in.name, len(in.b), in.max, cuts)
@@ -270,8 +288,14 @@ func c07Body(ins []decInput, tier string) func(x *engine.X) {
 				src.Write(seg)
 				for {
 					f, err := codec.Decode(src)
-					if src.Cap() > capLimit {
-						x.Fail("wsframe.Decode/unbounded-buffering", "after Decode the source buffer has capacity %d for %d input bytes and maximum %d", src.Cap(), len(in.b), in.max)
+					if c := src.Cap(); c > capLimit {
+						if c > 1<<24 {
+							c07Buffered.Add(1)
+							src.Reset()
+							src.ShrinkTo(0)
+							debug.FreeOSMemory()
+						}
+						x.Fail("wsframe.Decode/unbounded-buffering", "after Decode the source buffer has capacity %d for %d input bytes and maximum %d", c, len(in.b), in.max)
 					}
 					if err != nil {
 						if errors.Is(err, sonicerrors.ErrNeedMore) {
